@@ -122,7 +122,9 @@ fn translate_block(
                     semantics::bctr(&mut instruction_graph, &instruction)
                 }
                 capstone::ppc_insn::PPC_INS_BDNZL => nop(&mut instruction_graph),
-                capstone::ppc_insn::PPC_INS_BLR => nop(&mut instruction_graph),
+                capstone::ppc_insn::PPC_INS_BLR => {
+                    semantics::blr(&mut instruction_graph, &instruction)
+                }
                 capstone::ppc_insn::PPC_INS_CMPWI => {
                     semantics::cmpwi(&mut instruction_graph, &instruction)
                 }
